@@ -541,7 +541,7 @@ def tags(case, impl, model):
     out.append("fragment:" + str(in_fragment(case["cls"])))
     m = (model or {}).get("out") or {}
     if "inFrag" in m:
-        out.append("proved-fragment(class_round_trip_partial):" + str(m["inFrag"]))
+        out.append("proved-fragment(class_round_trip_partial | class_round_trip_extras_partial):" + str(bool(m["inFrag"] or m.get("inFragExtras"))))
     if "exactDecl" in m:
         out.append("proved-fragment(deserialize_exact_partial):" + str(m["exactDecl"]))
     out.append("model-scope:" + str(in_model_scope(case["cls"])))
